@@ -193,9 +193,17 @@ def e2e_phase(ctx: Ctx, owns) -> dict:
             evs = runs[b["tid"] - 1]
             mism.append({"behaviour": b["tid"], "step": b["k"], "action": b["ev"], "what": ",".join(mine), "expected": "device model (Device.tla)",
                          "observed": {k: vv for k, vv in evs[b["k"]].items() if k != "b"}, "scenario": scns[b["tid"] - 1]})
-    return {"label": "end-to-end (API object -> simulated device -> broadcast -> bridge) judged by Trace_Switcher",
-            "gen": {"module": "Trace_Switcher", "behaviours": len(runs), "states": v["states"], "branches": v["tags"]},
-            "behaviours": len(runs), "steps": v["n_events"], "mismatches": mism}
+    # ... and behaviours of the end-to-end model chosen by TLC (Gen_Switcher: commands, queries, time, broadcasts sent / lost /
+    # delivered, bridge started / stopped, for each device family) stepped through the real objects
+    g = e2edrive.gen_replay(ctx.seed, ctx.pick(30, 400), ctx.quick)
+    for m in g["mismatches"]:
+        if owns(m["what"]):
+            mism.append(m)
+    return {"label": "end-to-end (API object -> simulated device -> broadcast -> bridge): recorded runs judged by Trace_Switcher + "
+                     "TLC-generated behaviours of Switcher.tla replayed",
+            "gen": {"module": "Trace_Switcher + Gen_Switcher", "behaviours": len(runs) + g["behaviours"], "states": v["states"] + g["info"]["states"],
+                    "branches": v["tags"], "generated_behaviours": g["behaviours"], "generated_steps": g["steps"]},
+            "behaviours": len(runs) + g["behaviours"], "steps": v["n_events"] + g["steps"], "mismatches": mism}
 
 
 class ClientProp(Prop):
